@@ -18,6 +18,7 @@ pub struct Recorder {
     pub ints: Vec<i64>,
     pub words: Vec<String>,
     pub strings: Vec<String>,
+    seen_messages: std::collections::HashSet<String>,
 }
 
 fn res_json(r: &Result<Result<V, E>, String>) -> J {
@@ -38,12 +39,38 @@ impl Recorder {
             ints: vec![],
             words: vec![],
             strings: vec![],
+            seen_messages: Default::default(),
         }
     }
     pub fn emit(&mut self, ev: J) {
         writeln!(self.out, "{}", ev).expect("write event");
         self.events += 1;
     }
+    /// Logs the Display text of an error value once (event `errmsg`), if every float it carries is in the primitive pool.
+    pub fn note_error(&mut self, e: &E) {
+        fn floats_of(v: &V, out: &mut Vec<f64>) {
+            match v {
+                Value::Float(f) => out.push(*f),
+                Value::Tuple(k) => k.iter().for_each(|x| floats_of(x, out)),
+                _ => {},
+            }
+        }
+        let enc = enc_error(e);
+        let mut fl = Vec::new();
+        for k in ["a", "b"] {
+            if let Some(v) = dec_value(&enc[k]) {
+                floats_of(&v, &mut fl);
+            }
+        }
+        if !fl.iter().all(|f| self.floats.iter().any(|p| p.to_bits() == f.to_bits())) {
+            return;
+        }
+        let text = e.to_string();
+        if self.seen_messages.insert(text.clone()) {
+            self.emit(json!({"ev": "errmsg", "e": enc, "text": cps(&text)}));
+        }
+    }
+
     pub fn finish(mut self, primreq: &str) {
         self.out.flush().expect("flush");
         let req = json!({
@@ -178,6 +205,9 @@ pub fn gen_ops(rec: &mut Recorder, rng: &mut StdRng, n: usize) {
         let post = json!({"nb": false, "vars": vars.iter().map(|(n, v)| json!({"n": cps(n), "v": enc_value(v)})).collect::<Vec<_>>(), "funcs": []});
         rec.emit(json!({"ev": "eval", "slot": 0, "src": cps(&src), "level": "string", "ek": "value", "mode": "imm",
                         "res": res_json(&r), "post": post, "log": []}));
+        if let Ok(Err(e)) = &r {
+            rec.note_error(e);
+        }
     }
 }
 
@@ -445,6 +475,9 @@ pub fn gen_programs(rec: &mut Recorder, rng: &mut StdRng, n: usize) {
             ev["tree"] = enc_tree(&normalise(t));
         }
         rec.emit(ev);
+        if let Ok(Err(e)) = &r {
+            rec.note_error(e);
+        }
         if r.is_err() {
             fresh = true;
         }
